@@ -121,6 +121,19 @@ def run(ctx):
             elif c['bad'] == 'space_inside':
                 i = rnd.randrange(1, len(hexd) - 1)
                 hexd = hexd[:i] + ' ' + hexd[i + 1:]
+            elif c['bad'] == 'space_front':
+                hexd = ' ' + hexd[1:]
+            elif c['bad'] == 'space_end':
+                hexd = hexd[:-1] + ' '
+            elif c['bad'] == 'newline_end':
+                hexd = hexd[:-1] + '\n'
+            elif c['bad'] == 'plus_front':
+                hexd = '+' + hexd[1:]
+            elif c['bad'] == '0x_front':
+                hexd = rnd.choice(['0x', '0X']) + hexd[2:]
+            elif c['bad'] == 'underscore_inside':
+                i = rnd.randrange(1, len(hexd) - 1)
+                hexd = hexd[:i] + '_' + hexd[i + 1:]
             hy = '-'.join([hexd[:8], hexd[8:12], hexd[12:16], hexd[16:20], hexd[20:]])
             text = {'plain': hexd, 'hyphenated': hy, 'braced': '{' + hexd + '}', 'urn': 'urn:uuid:' + hy,
                     'urn_braced_hyph': 'urn:uuid:{' + hy + '}', 'upper': hexd.upper(), 'upper_hyph': hy.upper()}[c['decor']]
